@@ -411,6 +411,32 @@ def clause_gcf_pairing(ctx):
                              "direction), every other quantity - initial "
                              "guesses, ranges, reported values, map "
                              "features - is in measured units")
+    # _fit converts the *value* of the contact point only: a bound the
+    # library itself puts on it (in measured units) is not converted and
+    # clips the corrected value
+    for m_ in ctx.repo.modules.values():
+        if m_.name.startswith("cli."):
+            continue
+        for q, f in m_.funcs.items():
+            if getattr(f, "_inlined_helper", False):
+                continue
+            for n in walk_no_nested(f, False):
+                if isinstance(n, ast.Call) and isinstance(
+                        n.func, ast.Attribute) and n.func.attr == "set" \
+                        and isinstance(n.func.value, ast.Subscript) and \
+                        const_str(n.func.value.slice) == "contact_point":
+                    bad = [k.arg for k in n.keywords
+                           if k.arg in ("min", "max", "expr")]
+                    if len(n.args) > 2:
+                        bad.append("positional bound")
+                    ctx.check(not bad, n,
+                              f"{m_.name}.{q}: contact_point.set(value) only",
+                              f"{m_.relpath}:{q} sets {bad} of the contact "
+                              "point in measured units, but "
+                              "IndentationFitter._fit converts only its "
+                              "value with the geometrical correction "
+                              "factor: for gcf_k != 1 the corrected contact "
+                              "point is clipped to the unconverted bound")
     # segment and fitted abscissa both scaled
     for name, mask in (("segment abscissa", "self.segment"),
                        ("fitted abscissa", "self.fit_range")):
